@@ -10,6 +10,7 @@ KNOWN = {
     'invalid:retype-key': 'C04-retype-key',
     'invalid:id-missing': 'C04-upgrade-id-missing',
     'invalid:cleared-output': 'C04-cleared-output',
+    'invalid:tag-added-by-both-sides-at-different-places': 'C04-same-tag-twice',
 }
 
 
